@@ -269,7 +269,7 @@ func c02case(c *ctx, prop string, f c02flags, old, cur []c02ep, script []string)
 }
 
 // c02layout builds an endpoint list through the real API (realistic names), then tweaks fields
-func c02layout(r *gen.Rng, f c02flags, naming int, n int, pool []string, dupOK bool) []c02ep {
+func c02layout(r *gen.Rng, f c02flags, naming int, n int, pool []string, dupOK bool, noEmpty bool) []c02ep {
 	b := hatypes.CreateBackends(0).AcquireBackend("d", "gen", "1")
 	b.Server.InitialWeight = f.iw
 	switch naming {
@@ -281,12 +281,16 @@ func c02layout(r *gen.Rng, f c02flags, naming int, n int, pool []string, dupOK b
 	used := map[string]bool{}
 	for i := 0; i < n; i++ {
 		if r.Chance(1, 4) {
-			b.AddEmptyEndpoint()
+			if !noEmpty {
+				b.AddEmptyEndpoint()
+			}
 			continue
 		}
 		t := gen.Pick(r, pool)
 		if used[t] && !dupOK {
-			b.AddEmptyEndpoint()
+			if !noEmpty {
+				b.AddEmptyEndpoint()
+			}
 			continue
 		}
 		used[t] = true
@@ -308,7 +312,7 @@ func c02layout(r *gen.Rng, f c02flags, naming int, n int, pool []string, dupOK b
 			ep.Label = "v" + strconv.Itoa(r.Intn(2))
 		}
 	}
-	if r.Chance(1, 5) {
+	if !noEmpty && r.Chance(1, 5) {
 		r2 := r.Fork()
 		gen.Shuffle(r2, b.Endpoints)
 	}
@@ -342,19 +346,14 @@ func c02random(c *ctx, prop string, r *gen.Rng, n int) {
 			minfree: r.Range(0, 6), block: r.Range(0, 8), iw: gen.Pick(r, []int{1, 1, 1, 100, 128})}
 		naming := r.Intn(3)
 		dup := r.Chance(1, 12)
-		old := c02layout(r, f, naming, r.Range(0, 9), pool, dup)
+		old := c02layout(r, f, naming, r.Range(0, 9), pool, dup, false)
 		ncur := r.Range(0, len(old)+1)
 		if r.Chance(1, 10) {
 			ncur = r.Range(0, 10)
 		}
-		cur := c02layout(r, f, naming, ncur, pool, dup)
-		// current endpoints are never empty slots before the update (converters add real endpoints only)
-		var cur2 []c02ep
-		for _, e := range cur {
-			if e.enabled {
-				cur2 = append(cur2, e)
-			}
-		}
+		// current endpoints are never empty slots before the update (converters add real endpoints only,
+		// so generated names are dense: srvNNN has NNN <= len)
+		cur2 := c02layout(r, f, naming, ncur, pool, dup, true)
 		if dup {
 			c.stat("dup_targets_allowed", 1)
 		}
